@@ -251,13 +251,16 @@ class Scenario:
                     files += [f.filename for f in dd.files]
         return {'dir': rd, 'mode': mode, 'files': files}
 
-    def cycle(self):
+    def cycle(self, request=True):
         from aioslsk.transfer.manager import _RequestFlag
         # let the settings watcher (1 s poll) notice friend / block changes and the transfer manager run its cycle
         self.settle(1.5)
-        self.tm.request_management_cycle(_RequestFlag.SHARES_CHANGE)
+        if request:
+            # (forced transfer states are not announced by any event: ask for a cycle explicitly)
+            self.tm.request_management_cycle(_RequestFlag.SHARES_CHANGE)
         self.settle(0.5)
-        return {'transfers': self.transfers_obs()}
+        obs = self.transfers_obs()
+        return {'transfers': obs, 'holders': [self.holder_info(t[1]) for t in obs]}
 
 
 def run_scenario(scn):
@@ -266,7 +269,7 @@ def run_scenario(scn):
     try:
         for e in scn['events']:
             k = e[0]
-            if k == 'share':
+            if k in ('share', 'share_nc'):
                 out.append(sc.share(e[1]))
             elif k == 'cfg':
                 out.append(sc.set_cfg(e[1]))
@@ -280,6 +283,11 @@ def run_scenario(scn):
                 out.append(sc.directory_contents(e[1], e[2]))
             elif k == 'cycle':
                 out.append(sc.cycle())
+            elif k == 'cycle_nr':
+                out.append(sc.cycle(request=False))      # only the cycles the client starts by itself
+            elif k == 'spin':
+                sc.w.loop.run_ready(e[1])      # a few loop iterations only: a management cycle may be left suspended
+                out.append({})
             else:
                 raise ValueError(k)
         return out
@@ -364,12 +372,19 @@ def monitor(scn, obs):
             m = ob['mode']
             if ob['files'] and not dir_allows(m[0], m[1], cfg['friends'], user) and not blocked(user, 'SHARES'):
                 found.append((K_F28, f'PeerDirectoryContentsReply lists the files of a {m[0]}-only directory to {user}', {'event': e, 'files': ob['files'][:3]}))
-        elif k == 'cycle':
+        elif k in ('cycle', 'cycle_nr'):
             before = last_holder.get('transfers', [])
             for tb, ta in zip(before, ob['transfers']):
                 if tb[2] == 'ABORTED' and tb[3] == 'Requested' and (ta[2], ta[3]) != ('ABORTED', 'Requested'):
                     found.append(('requested-abort-not-kept', f'an upload aborted on the user\'s request is {ta[2]}/{ta[3]} after the cycle',
                                   {'before': list(tb), 'after': list(ta)}))
+            for (u, rp, st, ar, fr), h in zip(ob['transfers'], ob.get('holders', [])):
+                if st in ('COMPLETE', 'FAILED', 'VIRGIN', 'ABORTED'):
+                    continue
+                if h is None or not dir_allows(h[0], h[1], cfg['friends'], u):
+                    found.append((K_F05 if h is not None and h[3] else 'cycle-unentitled-not-aborted',
+                                  f'after the cycle the upload of {rp!r} to {u} is {st} although {u} is not entitled to it',
+                                  {'transfer': [u, rp, st, ar], 'holder': h}))
             for (u, rp, st, ar, fr) in ob['transfers']:
                 if st in ('COMPLETE', 'FAILED', 'VIRGIN'):
                     continue
@@ -385,7 +400,7 @@ def monitor(scn, obs):
 
 def _stale_possible(scn):
     """a nested shared directory was added or removed somewhere in the scenario (F05 shape)"""
-    dirs = [tuple(e[1][1]) for e in scn['events'] if e[0] == 'share' and e[1][0] in ('add', 'remove')]
+    dirs = [tuple(e[1][1]) for e in scn['events'] if e[0] in ('share', 'share_nc') and e[1][0] in ('add', 'remove')]
     return any(a != b and a[:len(b)] == b for a in dirs for b in dirs)
 
 
@@ -500,6 +515,41 @@ def gen_scenario(rng):
             events.append(['dircontents', u, rng.choice(fl)[:-1]])
         else:
             events.append(['cycle'])
+    if rng.random() < 0.3:
+        # directed: a friend uses a friends-only directory, then is removed from the friends list
+        f = rng.choice(fl)
+        d = next((x for x in sorted(shared, key=len, reverse=True) if f[:len(x)] == x and len(f) > len(x)), None)
+        if d is not None:
+            u = rng.choice(USERS)
+            base = gen_cfg(rng, vocab)
+            base['blocked'] = {}
+            base['phrases'] = []
+            events.append(['share', ['update', d, 'friends', []]])
+            events.append(['cfg', dict(base, friends=sorted(set(base['friends']) | {u}))])
+            events.append(['search', u, S.gen_query(rng, [], f)])
+            events.append(['queue', u, ['item', f, 'exact']])
+            events.append(['cfg', dict(base, friends=sorted(set(base['friends']) - {u}))])
+            events.append(['cycle'])
+            events.append(['search', u, S.gen_query(rng, [], f)])
+            events.append([rng.choice(['queue', 'request']), u, ['item', rng.choice(fl), 'exact']])
+            ntr += 1
+    if rng.random() < 0.3 and shared:
+        # directed: a second share change arrives while the management cycle started by the first one may be suspended
+        us = rng.sample(USERS, 2)
+        ds = [rng.choice(shared), rng.choice(shared)]
+        fs = [next((f for f in fl if f[:len(d)] == d and len(f) > len(d)), None) for d in ds]
+        if all(fs):
+            events.append(['cfg', {'friends': [], 'blocked': {}, 'phrases': [], 'max': 100}])
+            for d in set(map(tuple, ds)):
+                events.append(['share', ['update', list(d), 'everyone', []]])
+            for u, f in zip(us, fs):
+                events.append(['queue', u, ['item', f, 'exact']])
+                ntr += 1
+            events.append(['cycle'])
+            events.append(['share_nc', ['update', ds[0], 'users', [x for x in USERS if x not in us]]])
+            events.append(['spin', rng.randrange(1, 5)])
+            events.append(['share_nc', ['update', ds[1], 'friends', []]])
+            events.append(['cycle_nr'])
     if ntr and rng.random() < 0.4:
         # directed: an upload aborted on request while its user gets blocked and unblocked again
         base = gen_cfg(rng, vocab)
@@ -535,7 +585,7 @@ def coq_scenario(nm, scn, obs, name):
     rows, pre, disks = [], [], {}
     for e, ob in zip(scn['events'], obs):
         k = e[0]
-        if k == 'share':
+        if k in ('share', 'share_nc'):
             st = e[1]
             if st[0] == 'add':
                 rows.append(f'EShare (Add {nm.p(st[1])} {nm.s(ob["aliases"][0])} {S.MODE_COQ[st[2]]} {nm.sl(st[3])})')
@@ -570,7 +620,7 @@ def coq_scenario(nm, scn, obs, name):
                     return '[' + ';'.join(f'({nm.p(ap)},{nm.s(fn)})' for ap, fn in l) + ']'
                 ex = f'(Some ({conv(rep["visible"])},{conv(rep["locked"])}))'
             rows.append(f'ESearch {nm.s(e[1])} {nm.s(e[2])} {ex}')
-        elif k == 'cycle':
+        elif k in ('cycle', 'cycle_nr'):
             rows.append(f'ECycle {coq_transfers(nm, ob["transfers"])}')
     return '\n'.join(pre) + f'\nDefinition {name} : list ev := [\n ' + ';\n '.join(rows) + '].\n', len(rows)
 
@@ -594,7 +644,7 @@ def coq_file(cases):
 def coq_positions(scn, obs):
     pos = []
     for i, (e, ob) in enumerate(zip(scn['events'], obs)):
-        if e[0] == 'dircontents' or (e[0] == 'share' and e[1][0] == 'scan' and 'disk' not in ob):
+        if e[0] in ('dircontents', 'spin') or (e[0] in ('share', 'share_nc') and e[1][0] == 'scan' and 'disk' not in ob):
             continue
         pos.append(i)
     return pos
